@@ -382,7 +382,19 @@ pub fn epserde_derive(input: TokenStream) -> TokenStream {
                     // Note that types_with_generics contains also field types
                     // *containing* a type parameter, but that just slows down
                     // the search.
-                    if ! t.bounds.is_empty() &&
+                    // The bounds on the parameter, inline and from the where clause
+                    let mut bounds = t.bounds.clone();
+                    if let Some(where_clause) = &derive_input.generics.where_clause {
+                        for predicate in &where_clause.predicates {
+                            if let WherePredicate::Type(p) = predicate {
+                                if p.lifetimes.is_none() && *ty == p.bounded_ty.to_token_stream().to_string() {
+                                    bounds.extend(p.bounds.iter().cloned());
+                                }
+                            }
+                        }
+                    }
+
+                    if ! bounds.is_empty() &&
                         types_with_generics.iter().any(|x| *ty == x.to_token_stream().to_string()) {
 
                         // Add a lifetime so we express bounds on DeserType
@@ -410,7 +422,7 @@ pub fn epserde_derive(input: TokenStream) -> TokenStream {
                                         <#ty as epserde::deser::DeserializeInner>::DeserType<'epserde_desertype>
                                     ),
                                     colon_token: token::Colon::default(),
-                                    bounds: t.bounds.clone(),
+                                    bounds: bounds.clone(),
                             }));
                         }
                         // Add the type bounds to the SerType
@@ -422,7 +434,7 @@ pub fn epserde_derive(input: TokenStream) -> TokenStream {
                                     <#ty as epserde::ser::SerializeInner>::SerType
                                 ),
                                 colon_token: token::Colon::default(),
-                                bounds: t.bounds.clone(),
+                                bounds: bounds.clone(),
                         }));
                     }
                 }
@@ -762,7 +774,19 @@ pub fn epserde_derive(input: TokenStream) -> TokenStream {
                 if let GenericParam::Type(t) = param {
                     let ty = &t.ident;
 
-                    if ! t.bounds.is_empty() &&
+                    // The bounds on the parameter, inline and from the where clause
+                    let mut bounds = t.bounds.clone();
+                    if let Some(where_clause) = &derive_input.generics.where_clause {
+                        for predicate in &where_clause.predicates {
+                            if let WherePredicate::Type(p) = predicate {
+                                if p.lifetimes.is_none() && *ty == p.bounded_ty.to_token_stream().to_string() {
+                                    bounds.extend(p.bounds.iter().cloned());
+                                }
+                            }
+                        }
+                    }
+
+                    if ! bounds.is_empty() &&
                         types_with_generics.iter().any(|x| *ty == x.to_token_stream().to_string()) {
 
                         // Add a lifetime so we express bounds on DeserType
@@ -790,7 +814,7 @@ pub fn epserde_derive(input: TokenStream) -> TokenStream {
                                         <#ty as epserde::deser::DeserializeInner>::DeserType<'epserde_desertype>
                                     ),
                                     colon_token: token::Colon::default(),
-                                    bounds: t.bounds.clone(),
+                                    bounds: bounds.clone(),
                             }));
                         }
                         // Add the type bounds to the SerType
@@ -802,7 +826,7 @@ pub fn epserde_derive(input: TokenStream) -> TokenStream {
                                     <#ty as epserde::ser::SerializeInner>::SerType
                                 ),
                                 colon_token: token::Colon::default(),
-                                bounds: t.bounds.clone(),
+                                bounds: bounds.clone(),
                         }));
                     }
                 }
